@@ -325,7 +325,7 @@ func (c *Channel) proposeNewSession(sid [32]byte, newS *Session) (ret *Session) 
 func (c *Channel) onReadySession(now time.Time) error {
 	se := c.sessions[2]
 	sessRemote := se.Session.RemoteKey()
-	if !c.remoteKey.IsZero() && !x509.EqualPublicKeys(&c.remoteKey, &sessRemote) {
+	if err := c.checkKey(&sessRemote); err != nil {
 		c.setNext(sessionEntry{})
 		return errors.New("session negotiated with wrong peer")
 	}
